@@ -297,7 +297,16 @@ where
 
     async fn predicate_wrapper(&self, predicate: &Option<ActiveBlobPred>) -> bool {
         if let Some(predicate) = predicate {
-            predicate(self.inner.active_blob_stat().await)
+            let stat = self.inner.active_blob_stat().await;
+            // The predicate is code of the caller and runs inside the worker task: if it panics, the request is
+            // dropped and the maintenance of the storage goes on
+            match std::panic::catch_unwind(std::panic::AssertUnwindSafe(|| predicate(stat))) {
+                Ok(applies) => applies,
+                Err(_) => {
+                    error!("predicate of a background request panicked: the request is dropped");
+                    false
+                }
+            }
         } else {
             true
         }
